@@ -199,6 +199,15 @@ def isCloseBrace (s : Str) : Bool := strip s == sClose
 
 /-! ## what the expander asks its environment -/
 
+/-- The version `Eups.findSetupVersion` (hence `getSetupVersion`, `findSetupProduct`) reports for a record
+`SETUP_<P> = "<p> <recorded> -f <flavor> -Z <stack>"`: the recorded version name — unless that name is a recognised tag name
+and *no version of that name is declared* for the product in the record's stack, in which case the name is taken for the tag
+and resolved (`tagged`; kept when the tag is not assigned).  `LOCAL:` versions are reported as they are. -/
+def setupVersion (recognised : List Str) (declared : Str → Bool) (tagged : Str → Option Str) (recorded : Str) : Str :=
+  if startsWith recorded sLocal then recorded
+  else if recognised.contains recorded && !declared recorded then (tagged recorded).getD recorded
+  else recorded
+
 structure Dep where
   name : Str
   version : Str
